@@ -18,6 +18,7 @@
 import IvpModel.Proofs.NormLemmas
 import Mathlib.Analysis.Real.Sqrt
 import IvpModel.Proofs.BdfNumLemmas
+import IvpModel.Proofs.BdfGenLemmas
 
 noncomputable section
 
@@ -90,3 +91,17 @@ theorem c01_errnorm_spec_bdf {K : Type} [Field K] [LinearOrder K] [IsStrictOrder
       SqrtPow.sqrt (((List.range values.size).map fun i =>
         (BdfNum.g values i / (if BdfNum.g scale i = 0 then L.eps else BdfNum.g scale i)) ^ 2).sum / (values.size : K)) :=
   BdfNum.weightedRms_spec L hL values scale hs
+
+/-- BDF: the norm as *regenerated from bdf.rs* (`Gen.Bdf.weightedRmsScaled`) is the RMS norm of values / scale, exactly-zero
+    scales (and only those) replaced by EPSILON -/
+theorem c01_errnorm_spec_bdf_translated {K : Type} [Field K] [LinearOrder K] [IsStrictOrderedRing K] [SqrtPow K]
+    {n : Nat} (values scale : Vector K n) :
+    Gen.Bdf.weightedRmsScaled (scale := scale) (values := values)
+      = SqrtPow.sqrt (errSum (fun i => values[i]) (bdfDenom scale) / (n : K)) := bdf_weightedRms_spec values scale
+
+/-- … and the hand-written norm of `Model/BdfNum.lean`, which runs beside the Rust code in X-bdfnum, is that function -/
+theorem c01_bdf_model_eq_translated {K : Type} [Field K] [LinearOrder K] [IsStrictOrderedRing K] [SqrtPow K]
+    {n : Nat} (L : BdfNum.NLits K) (hL : BdfNum.LitOK L) (heps : L.eps = (1 : K) / 4503599627370496) (values scale : Vector K n) :
+    BdfNum.weightedRms L values.toArray scale.toArray = Gen.Bdf.weightedRmsScaled (scale := scale) (values := values) :=
+  bdf_weightedRms_model_eq_translated L hL heps values scale
+
